@@ -529,13 +529,41 @@ func ruleRowCache(p *Prog, r *Result) {
 		}
 		return true
 	}
+	storesResultDirect := func(f *ssa.Function) bool {
+		found := false
+		allInstrs(f, func(in ssa.Instruction) {
+			if st, ok := in.(*ssa.Store); ok {
+				if o, fld, _, ok := fieldOfAddr(st.Addr); ok && o != nil && o.Obj().Name() == "FunctionCallExpr" && fld == "Result" {
+					found = true
+				}
+			}
+		})
+		return found
+	}
+	storing := map[*ssa.Function]bool{}
+	for _, f := range p.Funcs {
+		if storesResultDirect(f) {
+			storing[f] = true
+		}
+	}
+	isResultStore := func(in ssa.Instruction) bool {
+		if st, ok := in.(*ssa.Store); ok {
+			if o, fld, _, ok := fieldOfAddr(st.Addr); ok && o != nil && o.Obj().Name() == "FunctionCallExpr" && fld == "Result" {
+				return true
+			}
+		}
+		if c, ok := in.(*ssa.Call); ok {
+			if f := c.Call.StaticCallee(); f != nil && storing[f] {
+				return true
+			}
+		}
+		return false
+	}
 	for _, fn := range p.Funcs {
 		storesResult := false
 		allInstrs(fn, func(in ssa.Instruction) {
-			if st, ok := in.(*ssa.Store); ok {
-				if o, f, _, ok := fieldOfAddr(st.Addr); ok && o != nil && o.Obj().Name() == "FunctionCallExpr" && f == "Result" {
-					storesResult = true
-				}
+			if isResultStore(in) {
+				storesResult = true
 			}
 		})
 		if !storesResult {
@@ -575,36 +603,6 @@ func ruleRowCache(p *Prog, r *Result) {
 	//    fields), so within one group no aggregate result is stored into the tree after a field was evaluated;
 	//  group-pair - what is not an aggregate in such a field (a GROUP BY value next to a count) is evaluated on the
 	//    pair handed to Execute, which therefore comes from the group's row, not from a fresh empty pair
-	storesResultDirect := func(f *ssa.Function) bool {
-		found := false
-		allInstrs(f, func(in ssa.Instruction) {
-			if st, ok := in.(*ssa.Store); ok {
-				if o, fld, _, ok := fieldOfAddr(st.Addr); ok && o != nil && o.Obj().Name() == "FunctionCallExpr" && fld == "Result" {
-					found = true
-				}
-			}
-		})
-		return found
-	}
-	storing := map[*ssa.Function]bool{}
-	for _, f := range p.Funcs {
-		if storesResultDirect(f) {
-			storing[f] = true
-		}
-	}
-	isResultStore := func(in ssa.Instruction) bool {
-		if st, ok := in.(*ssa.Store); ok {
-			if o, fld, _, ok := fieldOfAddr(st.Addr); ok && o != nil && o.Obj().Name() == "FunctionCallExpr" && fld == "Result" {
-				return true
-			}
-		}
-		if c, ok := in.(*ssa.Call); ok {
-			if f := c.Call.StaticCallee(); f != nil && storing[f] {
-				return true
-			}
-		}
-		return false
-	}
 	nGroupEval := 0
 	pairFields := map[string]bool{}
 	for _, fn := range p.Funcs {
